@@ -274,6 +274,9 @@ pub fn check_case(door: Door, b: &[u8], case: &mut Case) {
             let s = sr.ok().and_then(|p| conv::sliced_layers(b, &p).ok());
             same_as_strict("LaxSlicedPacket::from_ethernet", case, s.as_ref(), got.as_ref().ok());
             judge_lax("LaxSlicedPacket::from_ethernet", case, &want, got, lerr);
+            if let Some(p) = r.as_ref().ok() {
+                judge_lax_views("LaxSlicedPacket::from_ethernet", case, door, b, &want, p);
+            }
             case.at("LaxPacketHeaders::from_ethernet");
             let r = LaxPacketHeaders::from_ethernet(b);
             let s = PacketHeaders::from_ethernet_slice(b);
@@ -300,6 +303,9 @@ pub fn check_case(door: Door, b: &[u8], case: &mut Case) {
             let s = sr.ok().and_then(|p| conv::sliced_layers(b, &p).ok());
             same_as_strict("LaxSlicedPacket::from_ether_type", case, s.as_ref(), got.as_ref().ok());
             judge_lax("LaxSlicedPacket::from_ether_type", case, &want, got, lerr);
+            if let Some(p) = Some(&r) {
+                judge_lax_views("LaxSlicedPacket::from_ether_type", case, door, b, &want, p);
+            }
             case.at("LaxPacketHeaders::from_ether_type");
             let r = LaxPacketHeaders::from_ether_type(EtherType(t), b);
             let s = PacketHeaders::from_ether_type(EtherType(t), b);
@@ -338,6 +344,9 @@ pub fn check_case(door: Door, b: &[u8], case: &mut Case) {
             let s = sr.ok().and_then(|p| conv::sliced_layers(b, &p).ok());
             same_as_strict("LaxSlicedPacket::from_ip", case, s.as_ref(), got.as_ref().ok());
             judge_lax("LaxSlicedPacket::from_ip", case, &want, got, lerr);
+            if let Some(p) = r.as_ref().ok() {
+                judge_lax_views("LaxSlicedPacket::from_ip", case, door, b, &want, p);
+            }
             case.at("LaxPacketHeaders::from_ip");
             let r = LaxPacketHeaders::from_ip(b);
             let s = PacketHeaders::from_ip_slice(b);
@@ -533,6 +542,27 @@ fn exts_tail(api: &'static str, case: &mut Case, want: &RefResult, start: u8, ne
     };
     if next != wn || rest.len() != b.len() - wo {
         case.fail(format!("exts-rest:{}", api), format!("{}: next {} rest {} bytes, expected next {} rest {} bytes (reference {})", api, next, rest.len(), wn, b.len() - wo, want.shape()));
+    }
+}
+
+/// derived views of a lax result (`ether_payload()`, `ip_payload()`, `vlan()`, `vlan_ids()`) against the layers the
+/// reference decodes in front of the fault
+fn judge_lax_views(api: &'static str, case: &mut Case, door: Door, b: &[u8], want: &RefResult, p: &LaxSlicedPacket) {
+    if want.stop.as_ref().map(|s| s.first).unwrap_or(false) {
+        return;
+    }
+    case.eval();
+    let ed = match door {
+        Door::Ether(t) => Some(t),
+        _ => None,
+    };
+    match conv::views_lax(b, p) {
+        Ok(v) => {
+            for (sig, d) in conv::check_views(api, ed, b.len(), &want.layers, &v) {
+                case.fail(sig, d);
+            }
+        }
+        Err(e) => case.fail(format!("result-not-observable:{}:views", api), format!("{}: {}", api, e)),
     }
 }
 
